@@ -279,13 +279,69 @@ def _child(i):
         return dict(harness_error=f"{s.ident()}: {type(e).__name__}: {e}\n{traceback.format_exc()[-800:]}")
 
 
+def _read_all(fd):
+    chunks = []
+    while True:
+        b = os.read(fd, 1 << 16)
+        if not b:
+            break
+        chunks.append(b)
+    os.close(fd)
+    return b"".join(chunks)
+
+
+def _write_all(fd, data):
+    mv = memoryview(data)
+    while mv:
+        n = os.write(fd, mv)
+        mv = mv[n:]
+    os.close(fd)
+
+
 def fan_out(st, scns, stage, workers):
+    """One forked grandchild per scenario: every grandchild inherits the generator suspended at the
+    point where the mutated message is due.  Worker processes fork the grandchildren sequentially."""
+    import pickle
     if not scns:
         return []
     _FAN.update(st=st, scns=scns, stage=stage)
-    ctx = multiprocessing.get_context("fork")
-    with ctx.Pool(processes=workers, maxtasksperchild=1) as pool:
-        return pool.map(_child, range(len(scns)), chunksize=1)
+    n = len(scns)
+    workers = max(1, min(workers, n))
+    procs = []
+    for w in range(workers):
+        rfd, wfd = os.pipe()
+        pid = os.fork()
+        if pid == 0:
+            os.close(rfd)
+            out = []
+            try:
+                for i in range(w, n, workers):
+                    r2, w2 = os.pipe()
+                    p2 = os.fork()
+                    if p2 == 0:
+                        os.close(r2)
+                        try:
+                            _write_all(w2, pickle.dumps(_child(i)))
+                        finally:
+                            os._exit(0)
+                    os.close(w2)
+                    data = _read_all(r2)
+                    os.waitpid(p2, 0)
+                    out.append((i, pickle.loads(data) if data else dict(harness_error=f"child for {scns[i].ident()} died")))
+                _write_all(wfd, pickle.dumps(out))
+            finally:
+                os._exit(0)
+        os.close(wfd)
+        procs.append((pid, rfd))
+    res = [None] * n
+    for pid, rfd in procs:
+        data = _read_all(rfd)
+        os.waitpid(pid, 0)
+        if not data:
+            raise HarnessError("fan-out worker died")
+        for i, r in pickle.loads(data):
+            res[i] = r
+    return res
 
 
 def _whole(i):
